@@ -409,7 +409,9 @@ func init() {
 		Run: func(w *eng.W) {
 			runtime.GOMAXPROCS(2)
 			all := append(append([]string{}, c30Meta...), c30Control(w.Thorough())...)
-			emit := func(group string, ps []string) {
+			// sketch renders cost ~10x a plain one (rough.js is loaded per Render): quick gives the sketch variants
+			// the core strings only
+			emit := func(group string, ps, sketchPs []string) {
 				for _, s := range c30Sites {
 					s := s
 					w.Phase(group+"-options:"+s.Name, func() {
@@ -422,7 +424,11 @@ func init() {
 							if per < 4 {
 								per = 4
 							}
-							for _, ch := range c30Chunks(ps, per) {
+							vps := ps
+							if strings.Contains(variant, "sketch") {
+								vps = sketchPs
+							}
+							for _, ch := range c30Chunks(vps, per) {
 								if !w.Mine() {
 									continue
 								}
@@ -444,11 +450,13 @@ func init() {
 					})
 				}
 			}
-			emit("base", all)
 			if w.Thorough() {
-				emit("pairs", all)
+				emit("base", all, all)
+				pairStrings := append(append([]string{}, c30Meta...), c30Control(false)...)
+				emit("pairs", pairStrings, pairStrings)
 			} else {
-				emit("pairs", c30Core)
+				emit("base", all, c30Core)
+				emit("pairs", c30Core[:2], c30Core[:2])
 			}
 			w.Count("svg_renders", c30Renders.Load())
 			w.Count("compile_layout_runs", c30Compiles.Load())
